@@ -171,6 +171,45 @@ Proof.
   apply (union_flat_dedup quad_eqb quad_eqb_spec term_eqb term_eqb_spec).
 Qed.
 
+(* ---- what the two counts of spec_apply count ---- *)
+Section News.
+  Context {A : Type} (eqb : A -> A -> bool) (eqb_spec : forall a b, reflect (a = b) (eqb a b)).
+
+  Lemma news_spec : forall L A0,
+    NoDup (news eqb A0 L) /\ (forall x, In x (news eqb A0 L) <-> In x L /\ ~ In x A0).
+  Proof.
+    induction L as [|a L IH]; intros A0; simpl.
+    - split; [constructor | intros x; tauto].
+    - destruct (mem eqb a A0) eqn:E.
+      + apply (mem_In eqb eqb_spec) in E. destruct (IH A0) as [N1 M1]. split; auto.
+        intros x. rewrite M1. split; [tauto|]. intros [[<-|H] H2]; tauto.
+      + apply (mem_false eqb eqb_spec) in E. destruct (IH (A0 ++ [a])) as [N1 M1]. split.
+        * constructor; auto. rewrite M1, in_app_iff. simpl. tauto.
+        * intros x. simpl. rewrite M1, in_app_iff. simpl. split.
+          -- intros [<-|[H1 H2]]; [tauto|]. split; [tauto|]. intros H3; apply H2; auto.
+          -- intros [[<-|H1] H2]; [tauto|]. destruct (eqb_spec a x) as [->|Hne]; [tauto|].
+             right. split; auto. intros [H3|[H3|[]]]; auto.
+  Qed.
+End News.
+
+Lemma length_filter_partition : forall {A} (f : A -> bool) l,
+  length l = (length (filter f l) + length (filter (fun x => negb (f x)) l))%nat.
+Proof. induction l as [|a l IH]; simpl; auto. destruct (f a); simpl; lia. Qed.
+
+(* deleted = |D n Del| ; inserted = number of distinct quads of Ins that are not in D \ Del *)
+Theorem spec_apply_counts : forall D Del Ins,
+  exists New, NoDup New /\ (forall q, In q New <-> In q Ins /\ ~ In q (qdiff (dq D) Del)) /\
+    snd (spec_apply D Del Ins) =
+    (N.of_nat (length New), N.of_nat (length (filter (fun q => qmem q Del) (dq D)))).
+Proof.
+  intros D Del Ins. exists (news quad_eqb (qdiff (dq D) Del) Ins).
+  destruct (news_spec quad_eqb quad_eqb_spec Ins (qdiff (dq D) Del)) as [N1 M1].
+  split; [exact N1|]. split; [exact M1|].
+  unfold spec_apply; simpl. f_equal.
+  - unfold qunion. rewrite (union_news quad_eqb), app_length. lia.
+  - rewrite (length_filter_partition (fun q => qmem q Del) (dq D)). unfold qdiff, diff, qmem. lia.
+Qed.
+
 (* ---- apply_mutations ---- *)
 Definition graphs_in_cat (D : dataset) : Prop := forall q g, In q (dq D) -> qg q = Some g -> In g (dc D).
 
